@@ -43,6 +43,7 @@ type loopInfo struct {
 	headState *State
 	preState  *State
 	decTerm   string
+	decUnsigned bool
 	cands     []candidate
 }
 
@@ -96,6 +97,7 @@ type Enc struct {
 	freshEsc    map[ssa.Value][]ssa.Instruction // fresh heap values -> instructions at which they (or an alias) escape
 	blockReachT map[int]map[int]bool            // CFG reachability between blocks (reflexive only through cycles)
 	disabledCands map[string]bool
+	inContractEval bool
 	mathInts    bool // mode math: integers are unbounded mathematical integers (no range facts assumed)
 }
 
